@@ -22,6 +22,7 @@ RULE = (
     'the object reports; subset / state-consistency / monotonicity for stricter settings.  Non-trivial = the '
     'history has at least one default jump; distinct = SHA-1 of (states, inner, inner fraction).'
 )
+RULE += ' Added in rounds 6-10: the settings are queried in shuffled order on the same object; the same history with a chronological (instead of grouped-by-atom) event table must give the same jumps; framework atoms listed before / between the diffusing atoms.'
 ASSUMPTIONS = [
     "ValueError('No jumps found') is the API's encoding of the empty jump set (accepted iff allowed by the model)",
     'site states reported by Transitions are taken as given (their geometric correctness is C02)',
